@@ -192,6 +192,33 @@ for _f in ("handler", "eid", "pair", "eid_and_type"):
   _mk_remove(_f)
 
 
+def _mk_remove_batch(picks, stale_first):
+  """removeListeners(batch): batch = the (type, id) pairs addListener returned for the picked subscriptions, optionally
+  preceded by a pair that is no longer subscribed (every listed subscription must go, wherever it stands in the batch)"""
+  def u(b):
+    src, prios, onces = source_with(b, 3)
+    def run(s):
+      sub(s, prios, onces)
+      stale = s.addListener(Ev, hnew)
+      s.removeListener(stale)
+      old_items = list(s._eventMixin_handlers[Ev])
+      batch = ([stale] if stale_first else []) + [(Ev, old_items[i][3]) for i in picks]
+      r = s.removeListeners(batch)
+      r2 = s.removeListeners(batch)
+      return (r, r2, view(s), [(e[0], e[1], e[2]) for i, e in enumerate(old_items) if i not in picks])
+    return Case(run, [src], raises={}, ensures={
+      "reports_a_change_iff_something_was_subscribed": lambda res: res[0] is (len(picks) > 0) and res[1] is False,
+      "every_listed_subscription_is_gone_the_rest_stays_in_order": lambda res: res[2] == res[3],
+    })
+  u.__name__ = "unsubscribe_batch_%s%s" % ("".join(str(i) for i in picks) or "none", "_after_a_stale_one" if stale_first else "")
+  u.bound = BOUND
+  unit(P, target=RV + "EventMixin.removeListeners")(u)
+
+
+for _picks, _st in (((), False), ((1,), True), ((0, 2), False), ((0, 1, 2), False), ((2, 0), True)):
+  _mk_remove_batch(_picks, _st)
+
+
 # ---------------------------------------------------------------- raiseEvent
 
 def halts(rv):
